@@ -13,7 +13,7 @@ pub trait IntoEdges : IntoEdgeReferences + IntoNeighbors {
     proof fn edges_law(self, a: Self::NodeId)
         requires self.inv()
         ensures self.edges_of(a).len() == self.succ(a).len(),
-            forall|i: int| 0 <= i < self.edges_of(a).len() ==> (#[trigger] self.edges_of(a)[i]).src() == a && self.edges_of(a)[i].tgt() == self.succ(a)[i]/*-*/;
+            forall|i: int| 0 <= i < self.edges_of(a).len() ==> (#[trigger] self.edges_of(a)[i]).src() == a && self.edges_of(a)[i].tgt() == self.succ(a)[i]/*-*/;   // [edges_start_at_the_queried_node]
     fn edges(self, a: Self::NodeId) -> (r: Self::Edges)
         /*+*/requires self.inv()
         ensures r.obeys_prophetic_iter_laws(), r.decrease() is Some, r.remaining() == self.edges_of(a)/*-*/;   // [edges_is_edges_of]
